@@ -49,8 +49,8 @@ def build_cases(tier, seed):
         for b in sub3:
             cs.append((c3, ((a, 2), (b, 1))))
     # one arbitrary ballot first / middle / last among valid ones
-    v1 = (("A", 1),)
-    v2 = (("B", 1), ("C", F(1, 2)))
+    v1 = ((c3[0], 1),)
+    v2 = ((c3[1], 1), (c3[2], F(1, 2)))
     for x in s3:
         cs.append((c3, ((x, 1), (v1, 1), (v2, 1))))
         cs.append((c3, ((v1, 1), (x, 1), (v2, 1))))
@@ -139,7 +139,7 @@ def run_case(i, tier):
     ballots = []
     for sc, w in bl:
         if sc == "RANKED":
-            ballots.append(Ballot(ranking=(frozenset({"A"}),), weight=w))
+            ballots.append(Ballot(ranking=(frozenset({cs[0]}),), weight=w))
         else:
             ballots.append(Ballot(scores=dict(sc), weight=w))
     prof = PreferenceProfile(ballots=tuple(ballots), candidates=tuple(cs))
